@@ -26,6 +26,9 @@ def compare(ck, p, data, real, model, spec, cfg_every=True, label='pel', extra=N
         # model's answer) does not contain: those modules have their own models and checks (C18, C20)
         ck.skip('input reaches a shipped parser module (covered by C18 / C20)')
         return
+    if real[0] == 'invalid-json':
+        ck.fail('the text produced for the PEL is not valid JSON: ' + real[2], rp | {'text_head': real[4][:300]}, label + '_invalid_json')
+        return
     # ---- property on the real code (only meaningful when the spec renders a document)
     if spec is not None and spec[0] == 'doc':
         if real[0] != 'doc':
